@@ -51,6 +51,11 @@ def run_conc(ctx, scenario, mode, cases, drivers=(), seed_offset=0, extra=()):
                 progtext = ''
             if re.search(r'^node \d+ fix2? ', progtext, re.M):      # only programs with fixpoint functions
                 key = 'fix-participant-stale-after-revalidation'
+        # known finding C22/kf5: after a user panic inside nested fixpoint cycles entered by several threads, a request
+        # that reaches the panicking function very rarely (1 in > 35 000 real-thread cases) dies with salsa's OWN
+        # consistency panic instead of the user's panic / PropagatedPanic
+        if kind == 'oracle' and 'must have an outer cycle responsible to finalize the query later' in msg:
+            key = 'internal-panic-after-user-panic-in-cycle'
         t.failures.append(Failure(k, 'conc %s/%s case %s: %s: %s' % (scenario, mode, case, kind, msg[:300]), replay=replay, key=key))
     if int(m.group(7)) > 0 and not t.failures:
         t.failures.append(Failure('model', 'conc %s reports %s failures without CONC-FAIL lines: %s' % (scenario, m.group(7), out[-600:])))
